@@ -8,7 +8,7 @@ SPEC = {
             "evaluated along a sequence of clock readings containing deadline-1s/-1ns/0/+1ns/+1s for both deadlines, "
             "epoch, epoch-1ns, before the epoch, far future, random instants; 70% sorted (monotonicity is checked on "
             "those), 30% shuffled; 30% of the plugins use the ::/64 / ::/0 wildcard form; in 35% the injected clock advances by "
-            "1ns..7s on every reading within one Apply (all lifetimes of one RA must describe the first reading). A case is non-trivial when the plugin is deprecated (the countdown is exercised); "
+            "1ns..7s on every reading within one Apply (all lifetimes of one RA must describe the first reading); 30% of the plugin values come out of config.Parse given the same epoch (sub-second part included) and 40% are Prepared once or twice before use, as at every (re)initialisation (the deadline must not move). A case is non-trivial when the plugin is deprecated (the countdown is exercised); "
             "distinct by canonical input.",
     "nontrivial": lambda c: bool(c.get("input", {}).get("deprecated")),
     "trusted": ["time.Time saturation (|now-epoch| near 2^63 ns) is outside the model; generated instants stay below 2^62 ns"],
